@@ -4,7 +4,7 @@
    [expressible] (Spec/Expressible.v) is written without the printer's validator counter. *)
 From Verif Require Import Base.Str Base.Outcome Model.Ast Model.Token Model.Parser Model.Listener Model.Printer
   Spec.Sem Spec.Expressible Spec.Normalize Proofs.PrinterExpressible Proofs.Lossless Proofs.ParserComplete Proofs.LosslessTokens
-  Proofs.LexInversion Proofs.LexRender Proofs.ParserNatural Proofs.RoundTripChars.
+  Proofs.LexInversion Proofs.LexRender Proofs.ParserNatural Proofs.RoundTripChars Proofs.DeclRoundTrip.
 
 (* 1. on every rewrite a DSL document can carry, the printer's walk succeeds and its counter equals the
       number of direct assignments in the tree — for all trees, of any depth and operator nesting *)
@@ -108,3 +108,25 @@ Proof. exact printed_line_lexes. Qed.
 Theorem C02_parser_reads_kinds_only : forall (g : tok -> tok), (forall t, tk (g t) = tk t) ->
   forall fuel direct ts, p_def fuel direct (map g ts) = pmap g (def_map g) (p_def fuel direct ts).
 Proof. intros g Hg fuel. exact (p_def_natural g Hg fuel). Qed.
+
+(* 12. the whole relation LINE: what [print_relation] writes ("    define <name>: <definition>"), between the line
+       feeds the document puts around it, is lexed without error and parsed by the relation-declaration rule back to
+       a declaration with the same name, the normalised rewrite and the relation's restrictions *)
+Theorem C02_printed_relation_line_reads_back : forall ty rel u meta,
+  let refs := rm_types_of meta in
+  carriable u = true -> expressible u = true -> refs <> [] -> Forall plain_ref refs -> plain_u u -> plain_name rel = true ->
+  exists t,
+    print_relation ty rel u meta false = Ok t /\
+    snd (Model.Lexer.lex ([10] ++ t ++ [10])) = [] /\
+    exists r k,
+      p_reldecl (fst (Model.Lexer.lex ([10] ++ t ++ [10]))) = Some (r, k) /\
+      map tk k = [NEWLINE] /\
+      ttext (rl_name r) = rel /\
+      sem_rdef (rl_def r) = normalize u /\
+      restrictions_elem (rd_first (rl_def r)) = (if (count_direct u =? 0)%nat then None else Some refs).
+Proof. exact printed_declaration_round_trip. Qed.
+
+(* 13. the parser reads kinds only, on declarations too *)
+Theorem C02_declaration_parser_reads_kinds_only : forall (g : tok -> tok), (forall t, tk (g t) = tk t) ->
+  forall ts, p_reldecl (map g ts) = pmap g (reldecl_map g) (p_reldecl ts).
+Proof. exact p_reldecl_map. Qed.
